@@ -133,7 +133,7 @@ impl Parser {
                             self.state = EngineState::ParseAnsiMusic(MusicState::Default);
                             let len = if len == 0 { self.cur_length } else { len };
                             self.cur_music.as_mut().unwrap().music_actions.push(MusicAction::PlayNote(
-                                FREQ[n + (self.cur_octave * 12)],
+                                FREQ[(n + (self.cur_octave * 12)).min(FREQ.len() - 1)],
                                 self.cur_tempo * len,
                                 self.dotted_note,
                             ));
